@@ -7,12 +7,18 @@ stacks of such programs (any number, any nesting of registrations-during-teardow
 subset raising any exception class, sync or async, with or without pass_exception) and
 over all ways the block ended.
 
-Not modelled (decided on the implementation only): cancellation of the block, real
-suspension of async callbacks.
+A block left by cancellation is modelled by `effStack` (Context.lean): the teardown runs in a
+cancelled scope, so the awaitable of an asynchronous callback is cancelled at its first
+checkpoint; the theorems below hold for the effective stack of every way of leaving the
+block, and `C01_cancel_*` state what cancellation changes and what it does not.
+
+Not modelled (decided on the implementation only): cancellation arriving in the middle of a
+teardown that began for another reason, shielded callbacks, real suspension of async callbacks.
 -/
 import AsphaltModel.Context
 import AsphaltProofs.Lemmas.Assoc
 import AsphaltProofs.Lemmas.Teardown
+import AsphaltProofs.Lemmas.Cancel
 
 namespace Asphalt
 
@@ -107,6 +113,9 @@ theorem bracketed_frame (i : Nat) (arg : Option (Option Exc)) (bo : List Out) (r
       bracketed tr := by
   split <;> simp [bracketed]
 
+/-- `runOrder` follows the recursion of `runTeardown` (Lemmas/Cancel.lean). -/
+theorem runOrder_runsLike : Cn.RunsLike runOrder := ⟨runOrder_nil, runOrder_cons⟩
+
 /-! ### the properties -/
 
 /-- Exactly once: the callbacks that run are, as a multiset, exactly the callbacks
@@ -189,13 +198,13 @@ closed, then the outcome. If any callback raised: one group with exactly the col
 exceptions, whatever the block's own outcome was. -/
 theorem C01_outcome_group (w : World) (t : TaskId) (c : CtxId) (be : BlockEnd) (x : Ctx)
     (hx : w.ctx? c = some x) (hs : x.state = .opened)
-    (hne : (runTeardown c be x.tds { x with state := .closing, tds := [] }).2.2 ≠ []) :
+    (hne : (runTeardown c be (effStack be x.tds) { x with state := .closing, tds := [] }).2.2 ≠ []) :
     (step w (.exit t c be)).2 =
-      (runTeardown c be x.tds { x with state := .closing, tds := [] }).2.1 ++
-        [.closed, .exitGroup (runTeardown c be x.tds { x with state := .closing, tds := [] }).2.2] := by
+      (runTeardown c be (effStack be x.tds) { x with state := .closing, tds := [] }).2.1 ++
+        [.closed, .exitGroup (runTeardown c be (effStack be x.tds) { x with state := .closing, tds := [] }).2.2] := by
   rw [step_exit w t c be x hx hs]
-  have hne' : (runTeardown c be x.tds { x with state := .closing, tds := [] }).2.2.isEmpty = false := by
-    cases h : (runTeardown c be x.tds { x with state := .closing, tds := [] }).2.2 with
+  have hne' : (runTeardown c be (effStack be x.tds) { x with state := .closing, tds := [] }).2.2.isEmpty = false := by
+    cases h : (runTeardown c be (effStack be x.tds) { x with state := .closing, tds := [] }).2.2 with
     | nil => exact absurd h hne
     | cons e es => rfl
   simp only [exitOutcome, hne', Bool.not_false, if_true]
@@ -207,7 +216,7 @@ theorem C01_outcome_normal (w : World) (t : TaskId) (c : CtxId) (x : Ctx)
     (hnone : (runTeardown c .ret x.tds { x with state := .closing, tds := [] }).2.2 = []) :
     (step w (.exit t c .ret)).2 =
       (runTeardown c .ret x.tds { x with state := .closing, tds := [] }).2.1 ++ [.closed, .exitNormal] := by
-  rw [step_exit w t c .ret x hx hs, hnone, hch]
+  rw [step_exit w t c .ret x hx hs, effStack_of_not_cancel .ret x.tds rfl, hnone, hch]
   rfl
 
 /-- … or the exception that ended the block, as itself (not wrapped in a group) when it is an
@@ -218,8 +227,57 @@ theorem C01_outcome_own (w : World) (t : TaskId) (c : CtxId) (n : Nat) (x : Ctx)
     (step w (.exit t c (.raised (.exn n)))).2 =
       (runTeardown c (.raised (.exn n)) x.tds { x with state := .closing, tds := [] }).2.1 ++
         [.closed, .exitOwn (.exn n) false] := by
+  rw [step_exit w t c _ x hx hs, effStack_of_not_cancel (.raised (.exn n)) x.tds rfl, hnone, hch]
+  simp [exitOutcome]
+
+/-- … or, after a cancellation, the cancellation itself. -/
+theorem C01_outcome_cancelled (w : World) (t : TaskId) (c : CtxId) (x : Ctx)
+    (hx : w.ctx? c = some x) (hs : x.state = .opened) (hch : x.children = [])
+    (hnone : (runTeardown c (.raised .cancelled) (effStack (.raised .cancelled) x.tds)
+      { x with state := .closing, tds := [] }).2.2 = []) :
+    (step w (.exit t c (.raised .cancelled))).2 =
+      (runTeardown c (.raised .cancelled) (effStack (.raised .cancelled) x.tds)
+          { x with state := .closing, tds := [] }).2.1 ++
+        [.closed, .exitOwn .cancelled x.parent.isNone] := by
   rw [step_exit w t c _ x hx hs, hnone, hch]
   simp [exitOutcome]
+
+/-! ### cancellation -/
+
+/-- Unless the block was cancelled, the stack runs as registered. -/
+theorem C01_cancel_only (be : BlockEnd) (st : List Cb) (h : be ≠ .raised .cancelled) :
+    effStack be st = st :=
+  effStack_of_not_cancel be st (Cn.isCancel_eq_false be h)
+
+/-- Under cancellation every registered callback is still there, in the same order, with the
+same identity and the same pass_exception flag: synchronous ones unchanged (what they register
+is subject to the same rule), asynchronous ones reduced to "invoked, cancelled". -/
+theorem C01_cancel_shape (st : List Cb) :
+    effStack (.raised .cancelled) st = st.map Cb.underCancel ∧
+      (∀ id p body regs r, (Cb.mk id p false body regs r).underCancel =
+          Cb.mk id p false body (regs.map Cb.underCancel) r) ∧
+      (∀ id p body regs r, (Cb.mk id p true body regs r).underCancel =
+          Cb.mk id p true [] [] (some .cancelled)) :=
+  ⟨Cn.effStack_cancelled st, underCancel_sync, underCancel_async⟩
+
+/-- Hence, also under cancellation, every callback registered on the context before the block
+was left is invoked (exactly once, by `C01_exactly_once`; in LIFO order with the cancellation
+exception as its argument, by `C01_lifo_and_argument`) … -/
+theorem C01_cancel_all_invoked (be : BlockEnd) (st : List Cb) :
+    ∀ cb ∈ st, ∃ cb' ∈ runOrder (effStack be st), cb'.id = cb.id ∧ cb'.passExc = cb.passExc ∧
+      cb'.isAsync = cb.isAsync :=
+  fun cb hm => runOrder_runsLike.effStack_invoked be st cb hm
+
+/-- … the directly registered ones keep their relative (LIFO) order … -/
+theorem C01_cancel_lifo (be : BlockEnd) (st : List Cb) :
+    (st.map Cb.id).Sublist ((runOrder (effStack be st)).map Cb.id) :=
+  runOrder_runsLike.effStack_sublist be st
+
+/-- … and the cancellation of every asynchronous one is collected like any other exception. -/
+theorem C01_cancel_collected (cid : CtxId) (st : List Cb) (x : Ctx) (cb : Cb) (hm : cb ∈ st)
+    (ha : cb.isAsync = true) :
+    Exc.cancelled ∈ (runTeardown cid (.raised .cancelled) (effStack (.raised .cancelled) st) x).2.2 :=
+  Cn.cancelled_collected cid st x cb hm ha
 
 /-- Afterwards the context is closed and its callback stack is empty — even if teardown raised. -/
 theorem C01_closed_afterwards (w : World) (t : TaskId) (c : CtxId) (be : BlockEnd) (x : Ctx)
@@ -230,7 +288,7 @@ theorem C01_closed_afterwards (w : World) (t : TaskId) (c : CtxId) (be : BlockEn
     ((ctx?_setCur _ t (x.token.getD none) c).trans (ctx?_setCtx_same w c _))
   refine ⟨x', h1, h2, ?_⟩
   rw [h3]
-  exact (runTeardown_frame c be x.tds _).2.2.2.2
+  exact (runTeardown_frame c be (effStack be x.tds) _).2.2.2.2
 
 /-- Non-vacuity (probe p5 of DESIGN.md, observed identically on both back-ends): four
 callbacks, #2 raises an Exception, #3 registers #31 which raises a BaseException, the block
@@ -246,6 +304,34 @@ example :
   intro c1 c2 c31 c3 c4
   have h : runOrder [c4, c3, c2, c1] = [c4, c3, c31, c2, c1] := by
     simp only [c1, c2, c31, c3, c4, runOrder_cons, runOrder_nil, List.reverse_nil,
+      List.reverse_cons, List.nil_append, List.cons_append]
+  rw [h]
+  exact ⟨rfl, rfl⟩
+
+/-- Non-vacuity for cancellation (experiment /tmp/exp/cancel2.py "mix", identical on both
+back-ends): the same four callbacks when the block is cancelled: the async #4 and #2 are
+invoked and cancelled, the sync #3 still registers #31; run order 4, 3, 31, 2, 1, exceptions
+collected: Cancelled, the BaseException of #31, Cancelled. -/
+example :
+    let c1 := Cb.mk 1 false false [] [] none
+    let c2 := Cb.mk 2 true true [] [] (some (.exn 1))
+    let c31 := Cb.mk 31 false false [] [] (some (.base 0))
+    let c3 := Cb.mk 3 true false [] [c31] none
+    let c4 := Cb.mk 4 false true [] [] none
+    (runOrder (effStack (.raised .cancelled) [c4, c3, c2, c1])).map Cb.id = [4, 3, 31, 2, 1] ∧
+      (runOrder (effStack (.raised .cancelled) [c4, c3, c2, c1])).filterMap Cb.raises =
+        [.cancelled, .base 0, .cancelled] := by
+  intro c1 c2 c31 c3 c4
+  have he : effStack (.raised .cancelled) [c4, c3, c2, c1] =
+      [Cb.mk 4 false true [] [] (some .cancelled), Cb.mk 3 true false [] [c31] none,
+       Cb.mk 2 true true [] [] (some .cancelled), c1] := by
+    simp only [c1, c2, c31, c3, c4, Cn.effStack_cancelled, List.map_cons, List.map_nil,
+      underCancel_sync, underCancel_async]
+  have h : runOrder (effStack (.raised .cancelled) [c4, c3, c2, c1]) =
+      [Cb.mk 4 false true [] [] (some .cancelled), Cb.mk 3 true false [] [c31] none, c31,
+       Cb.mk 2 true true [] [] (some .cancelled), c1] := by
+    rw [he]
+    simp only [c1, c31, runOrder_cons, runOrder_nil, List.reverse_nil,
       List.reverse_cons, List.nil_append, List.cons_append]
   rw [h]
   exact ⟨rfl, rfl⟩
